@@ -347,3 +347,5 @@ func vpSortedKeys(m map[string]string) []string {
 var errVpReload = errors.New("verif: scripted reload failure")
 
 func clientKey(ns, name string) types.NamespacedName { return types.NamespacedName{Namespace: ns, Name: name} }
+
+func upsertOf(obj client.Object) interface{} { return &events.UpsertEvent{Resource: obj} }
